@@ -602,10 +602,10 @@ def snippet_multi(case, x, cfg, pts):
         '# PYTHONPATH=/verif/harness JAX_PLATFORMS=cpu /venv/bin/python this_file.py',
         'import numpy as np, json, os, tempfile',
         'from vf.drivers import c34',
-        'case = %s' % json.dumps(case),
-        'x = %s   # expectation derived by spec/mech/FuncSigJudge.tla' % json.dumps(x),
-        'cfg = %s' % json.dumps(cfg),
-        'pts = %s' % json.dumps(pts),
+        'case = json.loads(%r)' % json.dumps(case),
+        'x = json.loads(%r)   # expectation derived by spec/mech/FuncSigJudge.tla' % json.dumps(x),
+        'cfg = json.loads(%r)' % json.dumps(cfg),
+        'pts = json.loads(%r)' % json.dumps(pts),
         'print(c34.gen_source_multi(case, x, cfg, "k"))',
         'print(c34.run_one_multi(case, x, cfg, pts, tempfile.mkdtemp()))'])
 
@@ -682,10 +682,10 @@ def snippet(rec, cfg, pts, yvals):
         '# PYTHONPATH=/verif/harness JAX_PLATFORMS=cpu /venv/bin/python this_file.py',
         'import numpy as np, json, os, tempfile',
         'from vf.drivers import c34',
-        'rec = %s' % json.dumps({k: rec[k] for k in ('e', 'd', 'dom', 'vars')}),
-        'cfg = %s' % json.dumps(cfg),
-        'pts = %s' % json.dumps(pts),
-        'yvals = %s' % json.dumps(yvals),
+        'rec = json.loads(%r)' % json.dumps({k: rec[k] for k in ('e', 'd', 'dom', 'vars')}),
+        'cfg = json.loads(%r)' % json.dumps(cfg),
+        'pts = json.loads(%r)' % json.dumps(pts),
+        'yvals = json.loads(%r)' % json.dumps(yvals),
         'print(c34.run_one(rec, cfg, pts, yvals, tempfile.mkdtemp()))'])
 
 
@@ -762,8 +762,10 @@ def pred_ifc_state_order(scn, info):
     """ImplicitFuncComp whose state arguments appear in the signature in another order than their residuals are
     returned (= the order of the component's outputs): the states are handed over positionally"""
     cfg = scn.get('cfg', {})
+    clause = str((info or {}).get('clause', ''))
     return (cfg.get('fam') == 'multi' and cfg.get('kind') == 'ifc'
-            and (scn.get('layout') or {}).get('kept') is False)
+            and (scn.get('layout') or {}).get('kept') is False
+            and clause.startswith(('residual', 'sub-Jacobian')) and 'shape' not in clause)
 
 
 def pred_single_input_jax(scn, info):
@@ -971,4 +973,9 @@ def run(ctx):
         'which deletes sub-Jacobians that are entirely zero at that point - repository tests rely on that pruning)',
         'points keep a margin of %.2f from kinks, ties, poles and domain boundaries; tolerance 1e-9 x the largest '
         'intermediate magnitude' % c14.MARGIN,
-        'implicit components: residuals and d residual / d (inputs, state) are compared; no nonlinear / linear solve']
+        'implicit components: residuals and d residual / d (inputs, state) are compared; no nonlinear / linear solve',
+        'multi-variable family: all outputs of a component share one shape, an input has that shape or (1,) (elementwise '
+        'trees); values and blocks are identified by NAME as the API documents it (a return value that is a simple name '
+        'is matched with the output of that name / with resid=<name>, unnamed return values are matched in order with '
+        'the declared outputs, a state is the argument that carries its name); FuncSig.Dir is only used to classify the '
+        'coverage (it must agree with the component, otherwise the run is a machinery error)']
